@@ -26,7 +26,8 @@ PROG = SCRATCH + '/echo prog.sh'
 LIBDIR = SCRATCH + '/lib dir'
 ARGV0 = 'main.py'
 
-MATCHER_OK = {'wl_pointer': True, '! .motion': True, '(="a b")': True, '[': False, 'a:b:c': False, '(="q\\z")': True,
+MATCHER_OK = {'(="\U0001F600")': True, '(="é\u2028")': True,
+              'wl_pointer': True, '! .motion': True, '(="a b")': True, '[': False, 'a:b:c': False, '(="q\\z")': True,
               'wl_surface.commit': True, '(="a\\tb")': True}
 
 UNITS = [
@@ -36,6 +37,7 @@ UNITS = [
     ('-l', 'my file.log'), ('-l', 'q"z.log'), ('-l', 'back\\slash.log'), ('--libwayland', LIBDIR), ('--verbose',),
     ('-pr',), ('-f',), ('a b',), ('q"z',), ('back\\slash',), ('',), ('-x',), ('-pC',), ('-f', '(="a\\tb")'),
     ('new\nline',), ('-l', 'C:\\new\\table.log'),
+    ('-f', '(="\U0001F600")'), ('-b', '(="é\u2028")'),
 ]
 MARKER_UNITS = {('-r',), ('-g',), ('--run',), ('--gdb',), ('-Cr',), ('-Cg',), ('-pr',)}
 
@@ -221,7 +223,7 @@ def eval_gdb_python(cmd):
 
 def gen_cli(tier):
     lefts = [[], ['-C'], ['-f', 'wl_pointer'], ['--supress', '-b', '(="a b")'], ['-f', '! .motion', '-C'],
-             ['-f', '(="q\\z")'], ['-f', '(="a\\tb")']]
+             ['-f', '(="q\\z")'], ['-f', '(="a\\tb")'], ['-f', '(="\U0001F600 é\u2028")']]
     rights = [[], ['-f', '-r', '--gdb', '-Cg'], ['a b', 'q"z', 'back\\slash', ''], ['--run', '-p', '-l', 'x']]
     markers = ['-r', '--run'] if tier == 'quick' else ['-r', '--run', '-Cr']
     for l in lefts:
